@@ -13,6 +13,7 @@ model's fuel sentinel (`C04_total_*`); determinism holds because they are functi
 -/
 import Anytype.Lemmas.ParserBytes
 import Anytype.Props.C01
+import Anytype.Lemmas.FmtContractHolds
 namespace Anytype
 
 /-! ### 1. totality: the fuel sentinel is unreachable; fuel monotonicity -/
@@ -414,17 +415,17 @@ open Anytype in
 open Anytype in
 /-- "Every proper prefix of a text produced by List.String() is rejected with an error":
 for every well-formed list value, in every field order of its nested objects. -/
-theorem C04_cut_serial_list (hf : FmtContract) (xs : List JVal) (hw : (JVal.list xs).WF) :
+theorem C04_cut_serial_list (xs : List JVal) (hw : (JVal.list xs).WF) :
     ∀ p, p <+: encode (ser (.list xs)) → p ≠ encode (ser (.list xs)) →
       ∃ e, parseListBytes p = .error e := by
-  obtain ⟨post, hs, hr⟩ := C01_consumes_all_list hf xs hw
+  obtain ⟨post, hs, hr⟩ := C01_consumes_all_list xs hw
   exact C04_cut_list hs (hr _)
 
 open Anytype in
-theorem C04_cut_serial_object (hf : FmtContract) (kvs : List (Str × JVal)) (hw : (JVal.obj kvs).WF) :
+theorem C04_cut_serial_object (kvs : List (Str × JVal)) (hw : (JVal.obj kvs).WF) :
     ∀ p, p <+: encode (ser (.obj kvs)) → p ≠ encode (ser (.obj kvs)) →
       ∃ e, parseObjectBytes p = .error e := by
-  obtain ⟨post, hs, hr⟩ := C01_consumes_all_object hf kvs hw
+  obtain ⟨post, hs, hr⟩ := C01_consumes_all_object kvs hw
   exact C04_cut_object hs (hr _)
 
 open Anytype in
